@@ -10,6 +10,7 @@
   `minQp`/`maxQp` are the EFFECTIVE `static_config.{min,max}_qp_allowed` (after `copy_api_from_app`, see `effCfg`).
 -/
 import SvtVerif.Lemmas.QpTail
+import SvtVerif.Lemmas.QpTailApi
 
 namespace C18
 open QpTail CSem
@@ -204,5 +205,85 @@ theorem min_eq_max_pins (i : RcIn) (h0 : 0 ≤ i.minQp) (h1 : i.minQp = i.maxQp)
   have := baseQIdx_in_bounds i h0 (by omega) h2 hb
   rw [← h1] at this
   omega
+
+/-- **The packet's `qp` and the frame header agree.** On every assigning branch the frame-level `picture_qp` (what the output
+    packet reports as `qp`, EbPacketizationProcess.c:684) is `CLIP3(min, max, (base_q_idx + 2) >> 2)` of the FINAL `base_q_idx`
+    — including the branches that go the other way round (`base_q_idx = quantizer_to_qindex[picture_qp]`), because
+    `(quantizer_to_qindex[p] + 2) >> 2 = p` for `p < 63` and `64` for `p = 63`. -/
+theorem pictureQp_consistent (i : RcIn) (h0 : 0 ≤ i.minQp) (h1 : i.minQp ≤ i.maxQp) (h2 : i.maxQp ≤ 63)
+    (hb : (rcTail i).branch ≠ 0) :
+    (rcTail i).pictureQp = clip3 i.minQp i.maxQp (shr ((rcTail i).baseQIdx + 2) 2) := by
+  have e1 : wrapU32 i.minQp = i.minQp := wrapU32_id _ h0 (by omega)
+  have e2 : wrapU32 i.maxQp = i.maxQp := wrapU32_id _ (by omega) (by omega)
+  have i1 : wrapI32 i.minQp = i.minQp := wrapI32_id _ (by omega) (by omega)
+  have i2 : wrapI32 i.maxQp = i.maxQp := wrapI32_id _ (by omega) (by omega)
+  unfold rcTail at hb ⊢
+  simp only [e1, e2, i1, i2] at hb ⊢
+  split_ifs at hb ⊢
+  all_goals first
+    | (exfalso; exact hb rfl)
+    | exact qpFromQidx_eq _ _ _ h0 h1 h2
+    | exact u8clip_consistent _ _ _ h0 h1 h2
+
+example : (rcTail ⟨2, 0, 1, 0, 0, 10, 63, 50, 50, 50, 0, 0, 0, 0, 0, 0, 200⟩).pictureQp = 63 ∧
+    (rcTail ⟨2, 0, 1, 0, 0, 10, 63, 50, 50, 50, 0, 0, 0, 0, 0, 0, 200⟩).baseQIdx = 255 := by decide +kernel
+
+/-- Same for the recode loop. -/
+theorem recode_consistent (mn mx q : Int) (h0 : 0 ≤ mn) (h1 : mn ≤ mx) (h2 : mx ≤ 63) :
+    (recodeClamp mn mx q).2 = clip3 mn mx (shr ((recodeClamp mn mx q).1 + 2) 2) := by
+  have e1 : wrapU32 mn = mn := wrapU32_id _ h0 (by omega)
+  have e2 : wrapU32 mx = mx := wrapU32_id _ (by omega) (by omega)
+  unfold recodeClamp
+  simp only [e1, e2]
+  exact qpFromQidx_eq _ _ _ h0 h1 h2
+
+/-! ### Through the API: the generated `copy_api_from_app` / `verify_settings` -/
+
+/-- `effCfg` (hand-written) is the GENERATED `copy_api_from_app` on the four members the tail depends on, for every well-typed
+    application configuration and every prior sequence-control-set state. -/
+theorem effCfg_is_copyApi (s : Gen.Config.Scs) (c : Gen.Config.Cfg) (hc : c.WellTyped) :
+    (Gen.Config.copyApi s c).static_config_min_qp_allowed = (effCfg (apiOf c)).minQp ∧
+    (Gen.Config.copyApi s c).static_config_max_qp_allowed = (effCfg (apiOf c)).maxQp ∧
+    (Gen.Config.copyApi s c).static_config_enable_qp_scaling_flag = (effCfg (apiOf c)).qpScaling ∧
+    (Gen.Config.copyApi s c).static_config_use_qp_file = (effCfg (apiOf c)).useQpFile :=
+  effCfg_eq_copyApi s c hc
+
+/-- **C18 for every configuration the library accepts.** Let `c` be any well-typed application configuration that the generated
+    `svt_av1_enc_set_parameter` model accepts (operational form: `verify_settings (copy_api_from_app (defaults s0) c)`), from any
+    prior handle state `s0`.  Let the tail run with the sequence control set that call produced (its min/max QP, scaling flag and
+    fixed-offsets flag), with `qp_on_the_fly ∈ {0,1}` (EbResourceCoordinationProcess.c:1047-1055) and ANY other input — RC mode
+    seen by the tail, frame type, layer offsets, upstream `new_qindex` / `picture_qp`.  Then the frame's `base_q_idx` lies between
+    `quantizer_to_qindex` of the effective minimum and maximum QP, and those are the application's `min_qp_allowed` /
+    `max_qp_allowed` whenever rate control is on, and 1 / 63 in CQP. -/
+theorem api_baseQIdx_in_bounds (s0 : Gen.Config.Scs) (c : Gen.Config.Cfg) (hc : c.WellTyped)
+    (hacc : Gen.Config.setParameterAcceptsOperational s0 c = true) (i : RcIn)
+    (hmin : i.minQp = (Gen.Config.copyApi (Gen.Config.setDefaults s0) c).static_config_min_qp_allowed)
+    (hmax : i.maxQp = (Gen.Config.copyApi (Gen.Config.setDefaults s0) c).static_config_max_qp_allowed)
+    (hsc : i.qpScaling = (Gen.Config.copyApi (Gen.Config.setDefaults s0) c).static_config_enable_qp_scaling_flag)
+    (hfx : i.fixedOffsets = (Gen.Config.copyApi (Gen.Config.setDefaults s0) c).static_config_use_fixed_qindex_offsets)
+    (ho : i.onTheFly = 0 ∨ i.onTheFly = 1) :
+    q2q i.minQp ≤ (rcTail i).baseQIdx ∧ (rcTail i).baseQIdx ≤ q2q i.maxQp ∧
+    i.minQp = (if c.rate_control_mode = 0 then 1 else c.min_qp_allowed) ∧
+    i.maxQp = (if c.rate_control_mode = 0 then 63 else c.max_qp_allowed) := by
+  have hv := verify_bounds _ hacc
+  obtain ⟨f1, f2, f3, _, f5, _, _⟩ := copyApi_qp_fields (Gen.Config.setDefaults s0) c
+  obtain ⟨g1, g2, g3, _⟩ := effCfg_eq_copyApi (Gen.Config.setDefaults s0) c hc
+  rw [← hmin, ← hmax] at hv
+  have mn0 : 0 ≤ i.minQp := by
+    rw [hmin, f1]
+    have := hc.min_qp_allowed
+    split_ifs <;> omega
+  have hb : (rcTail i).branch ≠ 0 := by
+    apply branch0_unreachable (apiOf c) i (by rw [hsc, g3]) (by rw [hfx, f5]; rfl) ho
+  have hbd := baseQIdx_in_bounds i mn0 hv.2.2 hv.1 hb
+  refine ⟨hbd.1, hbd.2, ?_, ?_⟩
+  · rw [hmin, f1]; by_cases hr : c.rate_control_mode = 0 <;> simp [hr]
+  · rw [hmax, f2]; by_cases hr : c.rate_control_mode = 0 <;> simp [hr]
+
+open Gen.Config in
+/-- Non-vacuity: the library defaults at 128x64 with VBR and bounds [20, 40] are accepted. -/
+example : setParameterAcceptsOperational {}
+    { initParam {} with source_width := 128, source_height := 64, rate_control_mode := 1, min_qp_allowed := 20, max_qp_allowed := 40 } = true := by
+  decide +kernel
 
 end C18
